@@ -792,4 +792,84 @@ example :
       classArgPop names [6] = .own 2 ∧ classArgPop names [3, 5] = .foreign 5 ∧
       classArgPopBy unqualKey names [1, 5] = .own 1 := by decide
 
+/-! ### registration tables: a name reaches its own dispatcher exactly when names are distinct -/
+
+/-- **module table**: if the Lua names in `luaL_Reg_module` are pairwise distinct, every function group of
+    every visited scope is reached under its Lua name and every constructor group under its class's
+    `LUA_ctor_name`: each by its own C dispatcher -/
+theorem moduleRegs_reaches (scopes : List ScopeD) (h : ((moduleRegs scopes).map (·.1)).Nodup)
+    (s : ScopeD) (hs : s ∈ scopes) :
+    (∀ g ∈ groups s.fns, lookupReg (moduleRegs scopes) g.lua = some g.impl) ∧
+    (∀ c ∈ s.classes, ∀ g ∈ groups c.fns, g.kind = .ctor →
+      lookupReg (moduleRegs scopes) c.ctorName = some g.impl) :=
+  ⟨fun g hg => (lookupReg_of_nodup _ h _ _).mpr (mem_moduleRegs_fn scopes s hs g hg),
+   fun c hc g hg hk => (lookupReg_of_nodup _ h _ _).mpr (mem_moduleRegs_ctor scopes s hs c hc g hg hk)⟩
+
+/-- converse: two entries with one name -- the earlier dispatcher is unreachable whatever surrounds them -/
+theorem equal_names_earlier_unreachable (pre mid post : List (Nat × Nat)) (n f g : Nat) (hfg : f ≠ g)
+    (h : ∀ p ∈ post, p.1 ≠ n) : lookupReg (pre ++ (n, f) :: mid ++ (n, g) :: post) n ≠ some f := by
+  have := lookupReg_later_wins (pre ++ (n, f) :: mid) post n g h
+  simp only [List.append_assoc, List.cons_append] at this ⊢
+  rw [this]
+  simp [Ne.symm hfg]
+
+/-- the default names of two classes coincide exactly when their unqualified names do -/
+theorem default_names_eq_iff (a b : Nat) : defaultNamesOf a = defaultNamesOf b ↔ a = b := by
+  constructor
+  · intro h
+    have : 4 * a = 4 * b := congrArg ClassNames.udt h
+    omega
+  · rintro rfl; rfl
+
+/-- **same-named classes of different namespaces, default names**: whatever else the library wraps, the
+    userdata typedef (and the method-table array) is defined twice -- the binding is not a valid C++
+    translation unit -- and both classes register one metatable name and one constructor name -/
+theorem same_unqualified_name_clashes (pre mid post : List ClassNames) (q1 q2 : QName) (n : Nat)
+    (h1 : q1.getLast? = some n) (h2 : q2.getLast? = some n) :
+    classNames q1 none = classNames q2 none ∧
+      ¬ noRedefinition (pre ++ classNames q1 none :: mid ++ classNames q2 none :: post) := by
+  have he : classNames q1 none = classNames q2 none := by simp [classNames, h1, h2]
+  refine ⟨he, ?_⟩
+  rintro ⟨hu, _⟩
+  rw [he] at hu
+  simp only [List.append_assoc, List.cons_append, List.map_append, List.map_cons] at hu
+  have := (List.nodup_append.mp hu).2.1
+  simp at this
+
+theorem nodup_map_of_injective (f : Nat → Nat) (hf : ∀ a b, f a = f b → a = b) :
+    ∀ l : List Nat, l.Nodup → (l.map f).Nodup := by
+  intro l
+  induction l with
+  | nil => intro _; simp
+  | cons a l ih =>
+    intro h
+    simp only [List.nodup_cons] at h
+    simp only [List.map_cons, List.nodup_cons, List.mem_map]
+    refine ⟨?_, ih h.2⟩
+    rintro ⟨b, hb, e⟩
+    exact h.1 (by rw [← hf b a e]; exact hb)
+
+/-- with distinct unqualified names nothing is defined twice -/
+theorem distinct_default_names_no_redefinition (ns : List Nat) (h : ns.Nodup) :
+    noRedefinition (ns.map defaultNamesOf) := by
+  constructor
+  · simp only [List.map_map]
+    exact nodup_map_of_injective _ (fun a b hab => by simp [defaultNamesOf] at hab; omega) ns h
+  · simp only [List.map_map]
+    exact nodup_map_of_injective _ (fun a b hab => by simp [defaultNamesOf] at hab; omega) ns h
+
+/-- one metatable name for two classes: the object of either class passes the other class's test
+    (methods and class arguments): the classes are confused -/
+theorem shared_metatable_name_confuses (classes : List ClassD) (c1 c2 : ClassD) (h1 : c1 ∈ classes)
+    (h : c1.mt = c2.mt) (d : Nat) :
+    demands (classSites c2).demanded (attachedValue (registry classes) (classSites c1).attached d) = true := by
+  have hm := mem_registry classes c1 h1
+  rw [h] at hm
+  simp [demands, attachedValue, classSites, hm, h]
+
+example : classNames [1, 5] none = classNames [2, 5] none ∧ classNames [1, 5] none ≠ classNames [6] none ∧
+    classNames [1, 5] (some ⟨90, 91, 92, 93⟩) ≠ classNames [2, 5] none := by decide
+
+example : lookupReg [(7, 10), (3, 11), (7, 12)] 7 = some 12 := by decide
+
 end Shroud.LuaDispatch
